@@ -64,6 +64,24 @@ class Check(PropertyCheck):
             if _i % 20 in (15, 18):
                 yield Scenario(["new", f"mark customfilter {rng.randint(0, 10**6)}"], {"family": "custom_filter", "accepted": 3, "queries": 4})
                 continue
+            if _i % 20 == 7:
+                # the caller installs another filter during an episode (right after a dispatch: nothing is memoised then) and resets: the first
+                # state of the next episode answers under the filter installed NOW - also when it was asked before under the old one
+                _, zj = gen.gen_instance(rng, rng.choice(["classic", "irregular", "recirc"]), max_jobs=4, max_machines=3, max_ops=3)
+                zj = [[(job[0][0], 0)] + list(job[1:]) for job in zj]       # every job opens with a zero-duration operation
+                fa, fb = rng.choice([(None, ["dom"]), (["dom"], None), (["nidle"], ["dom", "nidle"]), (["dom"], ["nio"])])
+                zl = ["new", instance_line(zj), gen.filter_line(fa), "q available", "q available_jobs", "q available_machines", "q current_time"]
+                ztr = gen.Tracker(zj)
+                for _ in range(rng.randint(1, 3)):
+                    if ztr.done():
+                        break
+                    j, p, m = gen.gen_valid_request(rng, ztr)
+                    ztr.take(j)
+                    zl.append(f"disp {j} {p} {m}")
+                zl += ["refilt" + gen.filter_line(fb)[6:], "reset", "q available", "q available_jobs", "q available_machines", "q current_time"]
+                yield Scenario(zl, {"family": "refilt_reset", "accepted": 3, "queries": 8, "zero_dur": True,
+                                    "filter": "none" if fa is None else "+".join(fa), "filter_style": "callable"})
+                continue
             if _i % 20 == 13:
                 yield Scenario(["new", f"mark raiser {rng.randint(0, 10**6)}"], {"family": "raiser", "accepted": 3, "queries": 4})
                 continue
